@@ -94,7 +94,14 @@ def run_case(i, seed, tier):
     g = Gen(cs)
     cfg = g.cfg(index=i + seed * 31, require=lambda c: c.joliet is not None)
     h = common.History(cfg, cs, ['std', 'churn', 'grow', 'links'][i % 4], max_size=4000)
-    h.extend(g.rng.choice([6, 15, 30, 50]))
+    n_ = g.rng.choice([6, 15, 30, 50])
+    if i % 6 == 3:
+        # edits continued on an object that opened the image mastered so far
+        h.extend(n_ // 2)
+        counters['reopened_histories'] = 1 if h.reopen() else 0
+        h.extend(n_ - n_ // 2)
+    else:
+        h.extend(n_)
     if i % 3 == 0:
         probe_limit(h.sess, h.gen, counters)
     ops = list(h.sess.accepted)
